@@ -1506,13 +1506,14 @@ func (m *repoManager) setNodeNote(uuid dvid.UUID, note string) error {
 		return ErrInvalidVersion
 	}
 
+	// repo before node: the order in which the repo is serialised, committed and logged
+	r.Lock()
 	node.Lock()
 	node.note = note
 	t := time.Now()
-	r.Lock()
 	r.updated, node.updated = t, t
-	r.Unlock()
 	node.Unlock()
+	r.Unlock()
 	return r.save()
 }
 
@@ -1824,9 +1825,14 @@ func (m *repoManager) newVersion(parent dvid.UUID, note string, branchname strin
 		return dvid.NilUUID, ErrInvalidVersion
 	}
 
-	node.RLock()
-	defer node.RUnlock()
+	// The repo's lock is taken before the node's: that is the order in which the repo is serialised,
+	// committed and logged.  Both are held for writing from the checks of the existing children to the
+	// insertion of the new child, so that two requests cannot both add a child on one branch.
+	r.Lock()
+	node.Lock()
 	if !node.locked {
+		node.Unlock()
+		r.Unlock()
 		return dvid.NilUUID, ErrBranchUnlockedNode
 	}
 
@@ -1837,38 +1843,51 @@ func (m *repoManager) newVersion(parent dvid.UUID, note string, branchname strin
 		branchname = node.branch
 		for _, sister := range node.children {
 			// check if there is already a branch here
-			r.RLock()
 			r.dag.RLock()
 			sisternode, found := r.dag.nodes[sister]
 			r.dag.RUnlock()
-			r.RUnlock()
 			if !found {
+				node.Unlock()
+				r.Unlock()
 				return dvid.NilUUID, fmt.Errorf("cannot find sibling nodes")
 			}
 			if sisternode.branch == branchname {
+				node.Unlock()
+				r.Unlock()
 				return dvid.NilUUID, ErrBranchUnique
 			}
 		}
 	} else { // check if branch name used anywhere in DAG
-		r.RLock()
 		for _, othernode := range r.dag.nodes {
 			if othernode.branch == branchname {
-				r.RUnlock()
+				node.Unlock()
+				r.Unlock()
 				return dvid.NilUUID, ErrBranchUnique
 			}
 		}
-		r.RUnlock()
 	}
 
 	// Add the child node.  Since it's new and unavailable, no need to lock it.
 	childUUID, childV, err := m.newUUID(assign)
 	if err != nil {
+		node.Unlock()
+		r.Unlock()
 		return dvid.NilUUID, err
 	}
 	child := newNode(childUUID, childV)
 	child.parents = []dvid.VersionID{v}
 	child.note = note
 	child.branch = branchname
+
+	node.children = append(node.children, childV)
+	node.updated = time.Now()
+
+	r.dag.Lock()
+	r.dag.nodes[childV] = child
+	r.dag.Unlock()
+	r.updated = time.Now()
+	node.Unlock()
+	r.Unlock()
 
 	m.branchMutex.Lock()
 	if branchname == "" {
@@ -1881,16 +1900,6 @@ func (m *repoManager) newVersion(parent dvid.UUID, note string, branchname strin
 	m.repoMutex.Lock()
 	m.repos[childUUID] = r
 	m.repoMutex.Unlock()
-
-	node.children = append(node.children, childV)
-	node.updated = time.Now()
-
-	r.Lock()
-	r.dag.Lock()
-	r.dag.nodes[childV] = child
-	r.dag.Unlock()
-	r.updated = time.Now()
-	r.Unlock()
 
 	// Notify data instances that we have a new child in case they have to do some kind of initialization.
 	r.RLock()
